@@ -63,7 +63,7 @@ def gen() -> None:
 # ====================================================================== generators
 
 def _payload(rng, B: bytes, lb: bytes) -> bytes:
-    atoms_all = [b"\r", b"\n", b"\r\n", b"-", b"--", b"a", b"bc", b"\x00\xff", B[: max(1, len(B) // 2)], b"--" + B[:-1],
+    atoms_all = [b"\r", b"\n", b"\r\n", b"-", b"--", b"a", b"bc", b"\x00\xff", "é€😀".encode(), "ü".encode() * 3, B[: max(1, len(B) // 2)], b"--" + B[:-1],
                  b"--" + B, lb + b"--" + B[:-1], lb + b"-", lb, b"x" * 40, b" ", b"\t", B, lb + b"--" + B[:-1] + b"!"]
     if lb == b"\n":
         atoms = [a for a in atoms_all if b"\r" not in a]
@@ -268,6 +268,7 @@ def norm_model_trace(line: str, B: bytes) -> list[str]:
 # ====================================================================== the check
 
 CORPUS = [
+    (b"B", b"--B\r\nContent-Disposition: form-data; name=\"t\"\r\n\r\n" + "a€é😀b".encode() + b"\r\n--B--\r\n"),
     # (boundary, body) : replays of fixed findings and hand-picked shapes
     (b"B", b"--B\r\nContent-Disposition: form-data; name=\"a\"\r\n\r\n\n" + b"y" * 30 + b"\r\r\n--B--\r\n"),
     (b"bound", b"--bound\r\nContent-Disposition: form-data; name=\"a\"\r\n\r\n--bound\r\nContent-Disposition: form-data; name=\"b\"\r\n\r\nv\r\n--bound--\r\n"),
